@@ -10,7 +10,7 @@ from dataclasses import dataclass, field, asdict
 from typing import Dict, List, Optional
 
 VERIF = pathlib.Path(__file__).resolve().parent.parent
-EVIDENCE_DIR = VERIF / 'evidence'
+EVIDENCE_DIR = pathlib.Path(os.environ.get('FSA_EVIDENCE_DIR') or (VERIF / 'evidence'))   # FSA_EVIDENCE_DIR: scratch runs against seeded trees
 KNOWN = VERIF / 'known_findings.json'
 
 
